@@ -428,3 +428,104 @@ pub proof fn lemma_hybrid_lfp(fs: Seq<BF>, g: Seq<Option<bool>>)
     lemma_hybrid_fix(fs, g, g);
     assert forall|w: Seq<Option<bool>>| #[trigger] is_fix(fs2, w) implies below(g, w) by { lemma_hybrid_fix(fs, g, w); }
 }
+// ---- hybrid back-end with pre-grounding (C03): the pre-grounded ADF has the same stable models
+// a over b: a's decided entries win
+pub open spec fn merge_tv(a: Seq<Option<bool>>, b: Seq<Option<bool>>) -> Seq<Option<bool>> { Seq::new(b.len(), |j: int| if j < a.len() && a[j].is_some() { a[j] } else { b[j] }) }
+pub proof fn lemma_cofv_merge(f: BF, a: Seq<Option<bool>>, b: Seq<Option<bool>>)
+    requires a.len() == b.len(),
+    ensures cofv(cofv(f, a), b) == cofv(f, merge_tv(a, b))
+{
+    assert forall|x: Asg| #[trigger] cofv(cofv(f, a), b)(x) == cofv(f, merge_tv(a, b))(x) by { assert(ovrv(ovrv(x, b), a) =~= ovrv(x, merge_tv(a, b))); }
+    assert(cofv(cofv(f, a), b) =~= cofv(f, merge_tv(a, b)));
+}
+pub proof fn lemma_cofv_commute(f: BF, a: Seq<Option<bool>>, b: Seq<Option<bool>>, top: Seq<Option<bool>>)
+    requires below(a, top), below(b, top),
+    ensures cofv(cofv(f, a), b) == cofv(cofv(f, b), a)
+{
+    assert forall|x: Asg| #[trigger] cofv(cofv(f, a), b)(x) == cofv(cofv(f, b), a)(x) by { assert(ovrv(ovrv(x, b), a) =~= ovrv(ovrv(x, a), b)); }
+    assert(cofv(cofv(f, a), b) =~= cofv(cofv(f, b), a));
+}
+pub open spec fn fpart(v: Seq<Term>) -> Seq<Option<bool>> { tvs(false_part(v)) }
+// every fixpoint of the reduct's operator carries the grounded interpretation (induction on the derivation rank)
+pub proof fn lemma_reduct_above_grounded(fs: Seq<BF>, gr: Seq<Term>, rank: Seq<nat>, v: Seq<Term>, u: Seq<Option<bool>>, k: nat)
+    requires derivable(fs, gr, rank), gr.len() < usize::MAX, v.len() == gr.len(), below(tvs(gr), tvs(v)), is_fix(reduct(fs, v), u),
+    ensures forall|i: int| 0 <= i < gr.len() && decided(#[trigger] gr[i]) && rank[i] < k ==> u[i] == tvo(gr[i]),
+    decreases k
+{
+    if k > 0 {
+        lemma_reduct_above_grounded(fs, gr, rank, v, u, (k - 1) as nat);
+        let rd = reduct(fs, v); let fp = fpart(v);
+        assert forall|i: int| 0 <= i < gr.len() && decided(#[trigger] gr[i]) && rank[i] < k implies u[i] == tvo(gr[i]) by {
+            if rank[i] == k - 1 {
+                let rb = r_below(gr, rank, rank[i]);
+                lemma_reduct_above_grounded(fs, gr, rank, v, u, rank[i]);
+                let m = merge_tv(fp, u);
+                assert(below(tvs(rb), m)) by {
+                    assert forall|j: int| 0 <= j < tvs(rb).len() && (#[trigger] tvs(rb)[j]).is_some() implies m[j] == tvs(rb)[j] by {
+                        assert(decided(gr[j]) && rank[j] < rank[i]);
+                        assert(u[j] == tvo(gr[j]));
+                        assert(tvs(gr)[j].is_some()); assert(tvs(v)[j] == tvs(gr)[j]);
+                        if fp[j].is_some() { assert(v[j].0 == 0); }
+                    }
+                }
+                lemma_cof_cofv(fs[i], false_part(v));
+                assert(rd[i] == cofv(fs[i], fp));
+                lemma_cofv_merge(fs[i], fp, u);
+                lemma_cof_cofv(fs[i], rb);
+                lemma_cofv_compose(fs[i], tvs(rb), m);
+                lemma_cofv_const(gr[i].0 == 1, m);
+                lemma_const_ne();
+                assert(cofv(rd[i], u) == bf_const(gr[i].0 == 1));
+                assert(u[i] == gamma_at(rd, u, i));
+            }
+        }
+    }
+}
+pub proof fn lemma_hybrid_stable(fs: Seq<BF>, gr: Seq<Term>, rank: Seq<nat>, v: Seq<Term>)
+    requires is_lfp(fs, tvs(gr)), derivable(fs, gr, rank), gr.len() < usize::MAX, v.len() == gr.len(), fs.len() == gr.len(),
+        forall|j: int| 0 <= j < v.len() ==> decided(#[trigger] v[j]),
+    ensures is_stable(pre_grounded(fs, tvs(gr)), v) == is_stable(fs, v)
+{
+    let g = tvs(gr); let fs2 = pre_grounded(fs, g);
+    let rd = reduct(fs, v); let rd2 = reduct(fs2, v);
+    let tv = tvs(v); let fp = fpart(v);
+    let n = v.len() as int;
+    lemma_const_ne();
+    assert(below(fp, tv)) by { assert forall|j: int| 0 <= j < n && (#[trigger] fp[j]).is_some() implies tv[j] == fp[j] by { } }
+    if is_stable(fs2, v) || is_stable(fs, v) {
+        // the grounded interpretation is below v
+        assert(below(g, tv)) by {
+            if is_stable(fs, v) { lemma_stable_is_fix(fs, v); }
+            else { lemma_stable_is_fix(fs2, v); lemma_pre_grounded_above(fs, g, tv); }
+        }
+        // the reduct of the pre-grounded ADF is the pre-grounded reduct
+        assert forall|i: int| 0 <= i < n implies #[trigger] rd2[i] == cofv(rd[i], g) by {
+            lemma_cof_cofv(fs2[i], false_part(v)); lemma_cof_cofv(fs[i], false_part(v));
+            lemma_cofv_commute(fs[i], g, fp, tv);
+        }
+        // a statement decided by g has a constant condition in rd2
+        assert forall|i: int| 0 <= i < n && (#[trigger] g[i]).is_some() implies rd2[i] == bf_const(g[i].unwrap()) by {
+            assert(g[i] == gamma_at(fs, g, i));
+            lemma_cof_cofv(fs2[i], false_part(v));
+            lemma_cofv_const(g[i].unwrap(), fp);
+        }
+        // above g the two operators coincide
+        assert forall|w: Seq<Option<bool>>, i: int| below(g, w) && 0 <= i < n implies #[trigger] gamma_at(rd2, w, i) == gamma_at(rd, w, i) by { lemma_cofv_compose(rd[i], g, w); }
+        // every fixpoint of either operator is above g
+        assert forall|w: Seq<Option<bool>>| #[trigger] is_fix(rd2, w) implies below(g, w) by {
+            assert forall|i: int| 0 <= i < g.len() && (#[trigger] g[i]).is_some() implies w[i] == g[i] by { lemma_cofv_const(g[i].unwrap(), w); assert(w[i] == gamma_at(rd2, w, i)); }
+        }
+        assert forall|w: Seq<Option<bool>>| #[trigger] is_fix(rd, w) implies below(g, w) by {
+            let mk = max_rank(rank, rank.len() as int) + 1;
+            lemma_reduct_above_grounded(fs, gr, rank, v, w, mk);
+            assert forall|i: int| 0 <= i < g.len() && (#[trigger] g[i]).is_some() implies w[i] == g[i] by { lemma_max_rank(rank, rank.len() as int, i); assert(decided(gr[i])); }
+        }
+        // hence the same fixpoints, hence the same least fixpoint
+        assert forall|w: Seq<Option<bool>>| #[trigger] is_fix(rd2, w) == is_fix(rd, w) by {
+            if is_fix(rd2, w) { assert forall|i: int| 0 <= i < rd.len() implies #[trigger] w[i] == gamma_at(rd, w, i) by { assert(w[i] == gamma_at(rd2, w, i)); } }
+            if is_fix(rd, w) { assert forall|i: int| 0 <= i < rd2.len() implies #[trigger] w[i] == gamma_at(rd2, w, i) by { assert(w[i] == gamma_at(rd, w, i)); } }
+        }
+        if is_lfp(rd, tv) { assert(is_fix(rd2, tv)); assert forall|w: Seq<Option<bool>>| #[trigger] is_fix(rd2, w) implies below(tv, w) by { assert(is_fix(rd, w)); } }
+        if is_lfp(rd2, tv) { assert(is_fix(rd, tv)); assert forall|w: Seq<Option<bool>>| #[trigger] is_fix(rd, w) implies below(tv, w) by { assert(is_fix(rd2, w)); } }
+    }
+}
